@@ -611,8 +611,8 @@ func c17Reinterp(c *Ctx) error {
 			lib.CoqZ(int64(so.Type)), lib.CoqZ(so.FileIndex), lib.CoqZ(so.BlockIndex), lib.CoqZ(so.BlockSpan), lib.CoqBytes(so.Data),
 			lib.CoqZ(bh.TargetIndex), lib.CoqBytes(ct.Add), lib.CoqBytes(ct.Copy), lib.CoqZ(ct.Seek), lib.CoqBool(ct.Eof))
 		c.Out.Emit(&lib.Case{Group: "reinterp", Class: "reinterp/" + m.Kind, Nontrivial: len(buf) > 1,
-			Input: map[string]interface{}{"msg": lib.MsgSummary([]lib.PMsg{m})[0], "fields": fmt.Sprintf("%+v", m)},
-			Obs:   map[string]interface{}{"asSyncHeader": sh.String(), "asSyncOp": so.String(), "asBsdiffHeader": bh.String(), "asControl": ct.String()},
+			Input:  map[string]interface{}{"msg": lib.MsgSummary([]lib.PMsg{m})[0], "fields": fmt.Sprintf("%+v", m)},
+			Obs:    map[string]interface{}{"asSyncHeader": sh.String(), "asSyncOp": so.String(), "asBsdiffHeader": bh.String(), "asControl": ct.String()},
 			Oracle: oracle, Coq: fmt.Sprintf("($ID%%N, %s, %s)", coqPlainMsg(m), obs)})
 	}
 	return nil
